@@ -16,6 +16,7 @@ import (
 // same value and become one atom in the linear context.
 
 type memKey struct {
+	alloc *ssa.Alloc // root local, if any
 	s     string     // printable path
 	last  *types.Var // last field of the path (nil if none)
 	root  byte       // 'P','F','G','A'
@@ -24,7 +25,44 @@ type memKey struct {
 
 type availState map[string]ssa.Value
 
+// pathSpec names memory reachable from parameter Param of a callee: each step
+// is a field selection followed by a load.
+type pathSpec struct {
+	Param  int
+	Fields []*types.Var
+}
+
+func (ps pathSpec) String() string {
+	s := fmt.Sprintf("P%d", ps.Param)
+	for _, f := range ps.Fields {
+		s += "." + f.Name()
+	}
+	return s
+}
+
+// synthLoad stands for a load the callee performed during a call; later loads
+// of the same path in the caller alias to it when nothing modified the path.
+type synthLoad struct {
+	name string
+	typ  types.Type
+	fn   *ssa.Function
+	pos  token.Pos
+	refs []ssa.Instruction
+}
+
+func (s *synthLoad) Name() string                  { return s.name }
+func (s *synthLoad) String() string                { return s.name }
+func (s *synthLoad) Type() types.Type              { return s.typ }
+func (s *synthLoad) Parent() *ssa.Function         { return s.fn }
+func (s *synthLoad) Referrers() *[]ssa.Instruction { return &s.refs }
+func (s *synthLoad) Pos() token.Pos                { return s.pos }
+
 type Avail struct {
+	// pathsAtCall, when set, lists the callee paths to materialise after a call (return facts)
+	pathsAtCall func(c ssa.CallInstruction) []pathSpec
+	// CallPaths records, per call and path index, the representative value of that path right after the call
+	CallPaths map[ssa.CallInstruction][]ssa.Value
+	synth     map[string]*synthLoad
 	p        *Program
 	mods     map[*ssa.Function]map[*types.Var]bool // transitive field mod-sets of in-repo functions
 	escaping map[*types.Var]bool                   // fields whose address escapes somewhere in the repo
@@ -32,7 +70,7 @@ type Avail struct {
 }
 
 func NewAvail(p *Program) *Avail {
-	a := &Avail{p: p, mods: map[*ssa.Function]map[*types.Var]bool{}, escaping: map[*types.Var]bool{}, keyInfo: map[string]memKey{}}
+	a := &Avail{CallPaths: map[ssa.CallInstruction][]ssa.Value{}, synth: map[string]*synthLoad{}, p: p, mods: map[*ssa.Function]map[*types.Var]bool{}, escaping: map[*types.Var]bool{}, keyInfo: map[string]memKey{}}
 	a.computeMods()
 	a.computeEscaping()
 	return a
@@ -135,29 +173,37 @@ func (a *Avail) keyOf(v ssa.Value) (memKey, bool) {
 	case *ssa.Global:
 		return memKey{s: "G:" + x.String(), root: 'G'}, true
 	case *ssa.Alloc:
-		return memKey{s: fmt.Sprintf("A:%p", x), root: 'A'}, true
+		return memKey{s: fmt.Sprintf("A:%p", x), root: 'A', alloc: x}, true
 	case *ssa.FieldAddr:
 		b, ok := a.keyOf(x.X)
 		if !ok || b.depth > 6 {
 			return memKey{}, false
 		}
 		f := fieldOfAddr(x)
-		if a.escaping[f] {
-			return memKey{}, false
-		}
-		return memKey{s: b.s + "." + f.Name() + fmt.Sprintf("#%p", f), last: f, root: b.root, depth: b.depth + 1}, true
+		return a.fieldKey(b, f)
 	case *ssa.UnOp:
 		if x.Op == token.MUL {
 			b, ok := a.keyOf(x.X)
 			if !ok || b.depth > 6 {
 				return memKey{}, false
 			}
-			return memKey{s: "*" + b.s, last: b.last, root: b.root, depth: b.depth + 1}, true
+			return a.loadKey(b), true
 		}
 	case *ssa.ChangeType:
 		return a.keyOf(x.X)
 	}
 	return memKey{}, false
+}
+
+func (a *Avail) fieldKey(b memKey, f *types.Var) (memKey, bool) {
+	if a.escaping[f] {
+		return memKey{}, false
+	}
+	return memKey{s: b.s + "." + f.Name() + fmt.Sprintf("#%p", f), last: f, root: b.root, depth: b.depth + 1, alloc: b.alloc}, true
+}
+
+func (a *Avail) loadKey(b memKey) memKey {
+	return memKey{s: "*" + b.s, last: b.last, root: b.root, depth: b.depth + 1, alloc: b.alloc}
 }
 
 func (a *Avail) inRepoField(f *types.Var) bool {
@@ -311,6 +357,53 @@ func (a *Avail) Run(fn *ssa.Function) map[ssa.Value]ssa.Value {
 						return false
 					})
 				}
+				if a.pathsAtCall != nil {
+					specs := a.pathsAtCall(x)
+					if len(specs) > 0 {
+						reps := make([]ssa.Value, len(specs))
+						args := com.Args
+						for si, ps := range specs {
+							if ps.Param >= len(args) {
+								continue
+							}
+							k, ok := a.keyOf(args[ps.Param])
+							if !ok {
+								continue
+							}
+							var cur ssa.Value = args[ps.Param]
+							okPath := true
+							for _, f := range ps.Fields {
+								fk, ok := a.fieldKey(k, f)
+								if !ok {
+									okPath = false
+									break
+								}
+								lk := a.loadKey(fk)
+								a.keyInfo[fk.s] = fk
+								if rep, ok := st[fk.s]; ok {
+									cur = rep
+								} else {
+									id := fmt.Sprintf("%p|%s", ins, fk.s)
+									sl := a.synth[id]
+									if sl == nil {
+										sl = &synthLoad{name: "«" + ps.String() + " after call»", typ: f.Type(), fn: fn, pos: ins.Pos()}
+										a.synth[id] = sl
+									}
+									st[fk.s] = sl
+									cur = sl
+								}
+								// continue the path from the loaded value: its key is lk
+								k = lk
+							}
+							if okPath {
+								reps[si] = cur
+							}
+						}
+						if record {
+							a.CallPaths[x] = reps
+						}
+					}
+				}
 			}
 		}
 		return st
@@ -376,5 +469,34 @@ func (a *Avail) Run(fn *ssa.Function) map[ssa.Value]ssa.Value {
 
 func (a *Avail) escapingKey(k memKey) bool { return k.last != nil && a.escaping[k.last] }
 
-// allocEscapes: conservatively, a local whose key is tracked may be captured by a closure.
-func (a *Avail) allocEscapes(k memKey) bool { return true }
+// allocEscapes: a callee can modify a local only through a closure that
+// captures it and stores to it, or through its escaped address.  A local whose
+// address is used only by loads, direct stores and closure bindings of
+// closures that never store to it cannot change across a call.
+func (a *Avail) allocEscapes(k memKey) bool {
+	if k.alloc == nil {
+		return true
+	}
+	for _, ref := range *k.alloc.Referrers() {
+		switch r := ref.(type) {
+		case *ssa.UnOp, *ssa.DebugRef:
+		case *ssa.Store:
+			if r.Addr != ssa.Value(k.alloc) {
+				return true
+			}
+		case *ssa.MakeClosure:
+			fn := r.Fn.(*ssa.Function)
+			for j, b := range r.Bindings {
+				if b == ssa.Value(k.alloc) && freeVarStored(fn, j) {
+					return true
+				}
+			}
+		case *ssa.FieldAddr, *ssa.IndexAddr:
+			// address of a part of the local: treat as escaping unless only loaded/stored
+			return true
+		default:
+			return true
+		}
+	}
+	return false
+}
